@@ -17,6 +17,7 @@ import (
 
 type c12Scenario struct {
 	name    string
+	failAt  map[int]int64 // client index -> server writes to it fail after this many response bytes
 	clients [][]Req
 	allow   bool
 	reset   func()
@@ -62,6 +63,9 @@ func c12Exec(t *testing.T, root string, sc c12Scenario, only int, prefix []int) 
 				continue
 			}
 			c := s.ln.Dial(nil)
+			if fa, ok := sc.failAt[i]; ok {
+				c.outFailAt = fa
+			}
 			id := i
 			c.hook = func(c *Conn, op string) {
 				sched.register(id + 1)
@@ -104,7 +108,7 @@ func c12Exec(t *testing.T, root string, sc c12Scenario, only int, prefix []int) 
 func TestC12(t *testing.T) {
 	r := NewReporter(t)
 	defer r.Done()
-	r.Rule("6 scenarios of 2-3 connections whose requests collide (same plain file, same generated image across member boundaries, CD images of different sector size, two directory enumerations, uploads into sibling files, churn); scheduling points = every connection read/write/close, every accept and every leaf filesystem operation of the server goroutines; all interleavings with <= 2 (quick) / <= 3 (thorough) preemptions; oracle: each client's response stream equals the stream of its script run alone, connection closed, handle ledger empty, uploaded files exact; distinct by schedule (choice sequence)")
+	r.Rule("7 scenarios of 2-3 connections whose requests collide (same plain file, same generated image across member boundaries, CD images of different sector size, two directory enumerations, uploads into sibling files, churn); scheduling points = every connection read/write/close, every accept and every leaf filesystem operation of the server goroutines; all interleavings with <= 2 (quick) / <= 3 (thorough) preemptions; oracle: each client's response stream equals the stream of its script run alone, connection closed, handle ledger empty, uploaded files exact; distinct by schedule (choice sequence)")
 	w, _ := buildC02World(t, r)
 	defer w.Cleanup()
 	mkCDImage(w.Root, cdImg{name: "cd2336.bin", sector: 2336, sig: "psx", size: 0x200000}, 3)
@@ -133,6 +137,10 @@ func TestC12(t *testing.T) {
 		{name: "sibling-uploads", allow: true, reset: resetW, files: map[string][]byte{"w/a.bin": append(append([]byte{}, pa...), []byte("tail-a")...), "w/b.bin": pb}, clients: [][]Req{
 			{mkReq(opCreateFile, "/w/a.bin"), wrReq(pa), wrReq([]byte("tail-a"))},
 			{mkReq(opCreateFile, "/w/b.bin"), wrReq(pb), mkReq(opGetDirSize, "/d")}}},
+		{name: "aborted-transfer-then-two", failAt: map[int]int64{0: 70000}, clients: [][]Req{
+			{mkReq(opOpenFile, "/plain/f131073.bin"), rdcReq(0, 131073)},
+			{mkReq(opOpenFile, "/plain/f65536.bin"), rdcReq(0, 65536), rdcReq(0, 65536)},
+			{mkReq(opOpenFile, "/plain/f65537.bin"), rdcReq(1, 65536), rdcReq(1, 65536)}}},
 		{name: "churn", clients: [][]Req{
 			{mkReq(opOpenFile, "/plain/f131073.bin"), rdcReq(0, 131073)},
 			{mkReq(opOpenFile, "/plain/f65536.bin"), rdcReq(0, 65536)},
